@@ -345,6 +345,14 @@ func (e *Env) Resume(pg *parkedG) {
 	close(pg.ch)
 }
 
+// DisableAllParks stops all further parking (parked goroutines stay parked until resumed).
+func (e *Env) DisableAllParks() {
+	e.mu.Lock()
+	e.parkPlan = map[string]map[int]bool{}
+	e.parkAll = map[string]bool{}
+	e.mu.Unlock()
+}
+
 // SiteHits returns how often a site was reached.
 func (e *Env) SiteHits(site string) int { e.mu.Lock(); defer e.mu.Unlock(); return e.siteHits[site] }
 
